@@ -130,6 +130,39 @@ def _topbit_test(c, B, w):
     return None
 
 
+def conversion_total(eng: Engine, ctx: Ctx, rid: str) -> int:
+    """A frame is returned only if its payload decodes: the per-field conversion must not contain an operation that fails for *some contents* of an
+    in-range bit field (a strict text codec applied code unit by code unit, a string-to-number parse, a lookup that raises for unlisted values).
+    The list is of known partial operations - a necessary condition, not a proof of totality (truncation is C06's business)."""
+    ctx.rule(rid, "the single-field routine applies no content-dependent partial operation to the extracted bits (strict decode / encode, str -> number parse, .index)")
+    f = eng.repo.func(eng.single_field_routine)
+    se = eng.symeval(f.qualname)
+    total_codecs = {"latin-1", "latin1", "iso-8859-1", "iso8859-1", "l1", "cp437"}
+    n = 0
+    bad = []
+    for e in se.effects:
+        if e.kind != "call":
+            continue
+        fn, args, kw = e.term[2], e.term[3], dict(e.term[4])
+        n += 1
+        if fn[0] == "attr" and fn[2] in ("decode", "encode"):
+            codec = args[0] if args else kw.get("encoding")
+            errors = args[1] if len(args) > 1 else kw.get("errors")
+            lenient = errors is not None and is_const(errors) and errors[1] in ("ignore", "replace", "backslashreplace", "surrogateescape")
+            name = str(codec[1]).lower().replace("_", "-") if codec is not None and is_const(codec) else "utf-8"
+            if name not in total_codecs and not lenient:
+                bad.append((e, f".{fn[2]}({name!r}) raises for code units the codec does not accept (a multi-byte character is split over several fields)"))
+        elif fn == ("builtin", "int") and len(args) == 2:
+            bad.append((e, "int(text, base) raises for text that is not a numeral"))
+        elif fn[0] == "attr" and fn[2] in ("index", "remove") and args:
+            bad.append((e, f".{fn[2]}() raises for a value that is not listed"))
+    for e, why in bad:
+        ctx.bad(rid, f.qualname, norm(e.node)[:70], expected="a conversion defined for every value of the bit field", found=why, **eng.loc(f, e.node))
+    if not bad:
+        ctx.ok(rid, f.qualname, "field conversions", found=f"{n} call(s) examined, none content-dependent", **eng.loc(f, f.node))
+    return n
+
+
 def field_values(eng: Engine, ctx: Ctx, rid1: str, rid2: str, rid3: str, rid5: str, model: DecoderModel | None = None):
     """D1 extraction slice, D2 value per data type, D3 scaling, D5 offset advance - for every descriptor."""
     T = eng.tables
